@@ -129,6 +129,29 @@ def _verdict_extra_props(expected: List[list], recorded: List[list], clause: str
     return set()
 
 
+def count_clauses(expected: List[list], recorded: List[list], prog: dict) -> List[Tuple[str, str]]:
+    """Counting oracle: how often each capture / condition was evaluated in the whole run, compared with the behaviour of
+    the specification (C08: each capture exactly once per checked call; C16: each condition at most once per check)."""
+    from icv.attribute import role_of
+    res = []
+
+    def counts(log: List[list], kind: str) -> Dict[int, int]:
+        out = {}  # type: Dict[int, int]
+        for ev in log:
+            if ev[0] == kind:
+                out[ev[2]] = out.get(ev[2], 0) + 1
+        return out
+    if not recorded or recorded[-1][0] == "abort" or len(recorded) < 2:
+        return res
+    ce, cr = counts(expected, "cap.in"), counts(recorded, "cap.in")
+    for s_ in sorted(set(ce) | set(cr)):
+        if cr.get(s_, 0) > ce.get(s_, 0):
+            res.append(("cap.repeated", "capture {} was evaluated {} times, the specification's behaviour evaluates it {} "
+                                        "times".format(s_, cr.get(s_, 0), ce.get(s_, 0))))
+            break
+    return res
+
+
 def _mask_ip(log: List[list]) -> List[list]:
     return [ev[:9] + [[-1]] for ev in log]
 
@@ -145,7 +168,8 @@ def diagnose(res: CheckResult, name: str, mism: List[dict], cur: Dict[str, bool]
     # verdict-level oracle: what the top-level callers got vs what the specification's behaviour gives them
     for it in batch:
         if it.get("expected"):
-            for clause, what in verdict_clauses(it["expected"], it["log"], it["prog"])[:1]:
+            for clause, what in (verdict_clauses(it["expected"], it["log"], it["prog"])[:1]
+                                 + count_clauses(it["expected"], it["log"], it["prog"])[:1]):
                 from icv.attribute import CLAUSES
                 props = set(CLAUSES.get(clause, set())) | _verdict_extra_props(it["expected"], it["log"], clause)
                 what = "family {}: {} (program {})".format(name, what, it["pid"])
